@@ -29,6 +29,8 @@ func init() {
 			"step":   stepWorker,
 			"merge":  mergeWorker,
 			"dsl":    dslWorker,
+			"pctgrid": pctGridWorker,
+			"join":    joinWorker,
 		}})
 }
 
@@ -137,8 +139,8 @@ func run1(args []string, in []rec) ([]rec, vf.MlrResult) {
 func cmdline(args []string, in []rec) string {
 	q := make([]string, len(args))
 	for i, a := range args {
-		if a == "" || strings.ContainsAny(a, " $^*[](){}'\"|;<>") {
-			q[i] = "'" + a + "'"
+		if a == "" || strings.ContainsAny(a, " \t$^*[](){}'\"|;<>&#~`\\!?") {
+			q[i] = "'" + strings.ReplaceAll(a, "'", `'\''`) + "'"
 		} else {
 			q[i] = a
 		}
@@ -153,7 +155,7 @@ func cmdline(args []string, in []rec) string {
 func quoteEach(l []string) string {
 	q := make([]string, len(l))
 	for i, s := range l {
-		q[i] = "'" + s + "'"
+		q[i] = "'" + strings.ReplaceAll(s, "'", `'\''`) + "'"
 	}
 	return strings.Join(q, " ")
 }
@@ -199,6 +201,15 @@ func (t *T) next() bool {
 		}
 	}
 	return t.mine
+}
+
+func dumpFile() *os.File {
+	if f := os.Getenv("VERIF_C10_DUMP"); f != "" {
+		if fh, err := os.OpenFile(f, os.O_APPEND|os.O_CREATE|os.O_WRONLY, 0644); err == nil {
+			return fh
+		}
+	}
+	return nil
 }
 
 // perClauseCap bounds the witnesses one shard reports per clause: a defect
@@ -297,7 +308,9 @@ func run(c *vf.Ctx) {
 	c.Rule = "every record stream of length <= n over the stated value/group alphabets (absent, empty, int, float, string, comma-bearing and numeric-looking group texts), simplest first, x every verb configuration in the stated lists; each (stream, configuration) pair is one evaluation and all pairs are distinct by construction; a case is non-trivial when at least one output cell was compared with a reference value (cells the documentation does not determine are counted as unconstrained and not asserted)"
 	c.Assume("value alphabet is small ints, dyadic floats (exactly representable), one string, empty and absent; floating moments are compared with exact rational recomputation at relative tolerance 1e-9; cancellation on ill-conditioned data is outside the bound")
 	c.Assume("an empty value is treated as 'missing' for sum/mean/var/.../min/max/percentiles (reference-main-null-data.md); for count/distinct_count/mode/antimode/minlen/maxlen the usage text does not say whether empties are counted, so both readings are accepted and such cells are counted as empty_policy_cells")
-	c.Assume("non-interpolated percentiles: index int(p*n/100) clamped (function-help examples) ; where p*n/100 is an exact integer k the usage text ('like R type=1' = x[k-1]) and the function-help example median([3,4,5,6,9,10])=6 (= x[k]) disagree, so either neighbour is accepted there")
+	c.Assume("non-interpolated percentiles: index int(p*n/100) clamped (function-help examples) ; where p*n/100 is an exact integer k the usage text ('like R type=1' = x[k-1]) and the function-help example median([3,4,5,6,9,10])=6 (= x[k]) disagree; no reading lets the choice depend on p or n, so the reading Miller shows on that very worked example (probed once per process on the real code) is required at EVERY exact-boundary cell whose p is exactly representable in binary (uniform index rule); for a p such as 33.3 either neighbour is accepted at an exact decimal boundary")
+	c.Assume("percentile (p,n) grid: p in {0,0.25,...,100} only (p*n exact in float64, so the documented formula has one value); data are distinct integers (the index rule does not depend on the data; value kinds, ties and input orders are covered by the small-n percentile family)")
+	c.Assume("name/key joins: joiner alphabet = empty string, printable ASCII non-alphanumerics except ',' (cannot occur in a name given through -f), ';' and '=' (separators of the harness's DKVP I/O), TAB, 0x1f; top with several value fields is run only on streams whose records all carry every field (known multi-field defect otherwise); step is run with the steppers that do not look forward")
 	c.Assume("interpolated percentiles, sums, means and moments over data containing a non-numeric string are not asserted (usage: 'the rest require numeric input')")
 	c.Assume("skewness and kurtosis follow the function-help examples: m3/(s^2)^1.5 with s^2 the (n-1)-variance, and m4/m2^2-3 with m2 the n-variance; undefined (variance 0) cells are not asserted")
 	c.Assume("tie order among equally frequent values in most-frequent/least-frequent and among equal values in top -a is not asserted (predicate: counts sorted, every pair correct, multiset of counts equals the top-k)")
@@ -315,9 +328,14 @@ func run(c *vf.Ctx) {
 	}
 	all := map[string]*vf.PoolResult{}
 	walls := map[string]float64{}
-	for _, f := range []fam{{"pct", 32}, {"stats1", 128}, {"group", 256}, {"step", 128}, {"merge", 64}, {"dsl", 64}} {
+	for _, f := range []fam{{"pct", 32}, {"stats1", 128}, {"group", 256}, {"step", 128}, {"merge", 64}, {"dsl", 64}, {"pctgrid", 64}, {"join", 128}} {
 		t0 := time.Now()
-		all[f.name] = c.RunPool(vf.PoolSpec{Worker: f.name, Shards: f.shards})
+		spec := vf.PoolSpec{Worker: f.name, Shards: f.shards}
+		if f.name == "join" || f.name == "pctgrid" {
+			// in-process Miller runs in bulk: one P per worker process avoids futex churn between 16 processes x 16 Ps
+			spec.Env = []string{"GOMAXPROCS=1"}
+		}
+		all[f.name] = c.RunPool(spec)
 		walls[f.name] = time.Since(t0).Seconds()
 	}
 	c.Extra["pool_wall_s"] = walls
@@ -359,11 +377,21 @@ func run(c *vf.Ctx) {
 	c.Extra["cells_compared"] = c.Counters["cells"]
 	c.Extra["cells_unconstrained"] = c.Counters["unconstrained"]
 	c.Extra["empty_policy_cells"] = c.Counters["empty_policy_cells"]
-	c.Extra["percentile_boundary_cells_either_neighbour"] = c.Counters["pct_boundary"]
+	c.Extra["percentile_exact_boundary_cells_held_to_one_reading"] = c.Counters["pct_boundary"]
 	if c.Quick() {
+		c.Extra["bounds_added"] = "percentile grid: direct calls n=1..10000 x p in {0,0.25,..,100} (401) x {non-interpolated, interpolated}; CLI binding n=1..400 x 112 percentile names x {stats1, stats1 -i, merge-fields, merge-fields -i, DSL percentiles()/median()/percentile() with and without interpolation}; name/key joins: 33 joiners x streams n<=2 over 24 record symbols (3 group texts x {one of the 3 fields | all 3} x value 1|5) x 7-9 grouped verb configurations, plus count-distinct -u n<=2 over 18 symbols"
 		c.Extra["bounds"] = "quick: value streams n<=4 over 9 symbols (stats1 incl. -i/-w 1..3/-s, step, merge-fields 4 fields / 2 records x 2 fields, DSL lists n<=4 over 8 symbols as array and map); group streams n<=3 over 6 group texts x 5 values, 9 (g,h) pairs x 3 values, 2 groups x 3 x 3 (x,y) values; percentiles p=0..100 (+11 fractional/synonym names) x n=1..8 x 3 ladders asc/desc + all tie patterns over 3 values + all permutations n<=5, both interpolation modes"
 	} else {
+		c.Extra["bounds_added"] = "percentile grid: direct calls n=1..100000 x 401 p x 2 modes; CLI binding n=1..2000; name/key joins: 33 joiners x (n<=2 over 45 symbols: 3 group texts x {no field | non-empty subset of 3 fields x value 1|5} + n=3 over 24 symbols: one field or all three), count-distinct -u n<=3 over 18 symbols"
 		c.Extra["bounds"] = "thorough: value streams n<=5 over 9 symbols; merge-fields 4 fields, 2 records x 2 fields, 3 records over 5 symbols; DSL lists n<=5; group streams n<=3 over the full alphabets plus n=4 over thinned alphabets (one field: 5 group texts x {1,2.5,absent}; two fields: 7 pairs x {1,2.5}; two values: 2 groups x 3 x 3); percentiles n=1..10, permutations n<=6"
+	}
+	c.Extra["joiner_alphabet"] = joinerLabels()
+	c.Extra["pct_grid_direct_cells"] = c.Counters["pct_grid_direct_cells"]
+	c.Extra["pct_grid_cli_cells"] = c.Counters["pct_grid_cli_cells"]
+	for k, v := range c.Counters {
+		if strings.HasPrefix(k, "boundary_reading:") && v > 0 {
+			c.Extra["percentile_boundary_reading_on_documented_example"] = strings.TrimPrefix(k, "boundary_reading:")
+		}
 	}
 	c.Extra["accumulator_table"] = accumulatorNames()
 	c.Extra["stepper_table"] = stepperNames()
